@@ -338,7 +338,6 @@ func headerName(e ast.Expr) string {
 
 func factsCache()      {}
 func factsResponse()   {}
-func factsLocation()   {}
 func factsCompress()   {}
 func factsServer()     {}
 func factsMain()       {}
@@ -496,4 +495,61 @@ func factsKey() {
 		}
 	}
 	defStrList("cachedMethods", cached)
+}
+
+// ---------------------------------------------------------------- location/location.go
+func factsLocation() {
+	section("location/location.go")
+	f := parse("location/location.go")
+	fd := funcDecl(f, "Location", "getPriority")
+	names := map[string]string{"len(l.Prefixes)": "nPrefixes", "len(l.Hosts)": "nHosts"}
+	params := "(nPrefixes nHosts : Int)"
+	if fd == nil {
+		out.WriteString("def locationPriority_shape : String := \"unknownShape:getPriority\"\ndef locationPriority " + params + " : Int := default\n")
+	} else {
+		// drop the memoisation (load; early return when non-zero; store) and the final return
+		var body []ast.Stmt
+		resVar := ""
+		ok := true
+		for _, st := range fd.Body.List {
+			n := nsrc(st)
+			switch {
+			case n == "priority:=l.priority.Load()":
+			case strings.HasPrefix(n, "ifpriority!=0{returnint(priority)}"):
+			case n == "l.priority.Store(priority)":
+			case strings.HasPrefix(n, "return"):
+				resVar = strings.TrimSuffix(strings.TrimPrefix(strings.TrimPrefix(n, "return"), "int("), ")")
+			default:
+				body = append(body, st)
+			}
+		}
+		if resVar == "" {
+			ok = false
+		}
+		if ok {
+			out.WriteString(transFunc("locationPriority", params, names, body, func(ast.Stmt) bool { return false }, "Int", resVar))
+		} else {
+			out.WriteString("def locationPriority_shape : String := \"unknownShape:getPriority return\"\ndef locationPriority " + params + " : Int := default\n")
+		}
+	}
+	// comparator of the sort in Locations.Set
+	cmp := "unknownShape:sort comparator"
+	if sd := funcDecl(f, "Locations", "Set"); sd != nil {
+		ast.Inspect(sd.Body, func(n ast.Node) bool {
+			call, ok := n.(*ast.CallExpr)
+			if !ok || !strings.HasPrefix(nsrc(call.Fun), "sort.Slice") || len(call.Args) != 2 {
+				return true
+			}
+			if fl, ok := call.Args[1].(*ast.FuncLit); ok && len(fl.Body.List) == 1 {
+				switch nsrc(fl.Body.List[0]) {
+				case "returndata[i].getPriority()<data[j].getPriority()":
+					cmp = "asc"
+				case "returndata[i].getPriority()>data[j].getPriority()":
+					cmp = "desc"
+				}
+			}
+			return false
+		})
+	}
+	defStr("locationSort", cmp)
 }
